@@ -263,7 +263,9 @@ Section Runs.
       ilog s' = ilog s -> eff s s'
   | EffReconv (c q who t n : Z) :
       In (c, q) (rel s) -> rel s' = del_rel (rel s) c q -> (forall c', nextseq s' c' = nextseq s c') ->
-      ilog s' = ilog s ++ [EvReconv c q who t n] -> eff s s'.
+      ilog s' = ilog s ++ [EvReconv c q who t n] -> eff s s'
+  | EffDrop (c q : Z) :        (* success acknowledgement: the record goes, nothing is re-converted *)
+      rel s' = del_rel (rel s) c q -> (forall c', nextseq s' c' = nextseq s c') -> ilog s' = ilog s -> eff s s'.
 
   Lemma eff_refl s : eff s s.
   Proof. apply (EffSame s s []); auto; [rewrite app_nil_r; reflexivity|intros e []]. Qed.
@@ -423,15 +425,19 @@ Section Runs.
     intros Hcb pk s f Hf. unfold tx, branch, commit, discard.
     destruct (cb pk (f s)) as [x'|x'] eqn:E; cbn [fst]; [|apply eff_refl].
     specialize (Hcb _ _ _ E). destruct (Hf s) as (R&N&L).
-    destruct Hcb as [evs R' N' L' B|c R' N' L'|c R' N' L'|c q who t n I R' N' L'].
+    destruct Hcb as [evs R' N' L' B|c R' N' L'|c R' N' L'|c q who t n I R' N' L'|c q R' N' L'].
     - apply (EffSame s x' evs); [congruence| |congruence|exact B]. intros c. rewrite N', N. reflexivity.
     - rewrite N, R, L in *. eapply EffSendEvm; eauto.
     - rewrite N, R, L in *. eapply EffSendPlain; eauto.
     - rewrite R, L in *. eapply EffReconv; eauto. intros c'. rewrite N', N. reflexivity.
+    - rewrite R, L in *. eapply EffDrop; eauto. intros c'. rewrite N', N. reflexivity.
   Qed.
 
   Lemma on_ack_eff ok pk x x' : on_ack pk ok x = Ok x' -> eff x x'.
-  Proof. unfold on_ack. destruct ok; [intros H; inversion H; apply eff_refl|apply refund_eff]. Qed.
+  Proof.
+    unfold on_ack. destruct ok; [|apply refund_eff]. intros H; inversion H; subst.
+    eapply EffDrop; reflexivity.
+  Qed.
 
   Lemma step_eff s o : eff s (step isender s o).
   Proof.
@@ -484,7 +490,7 @@ Section Runs.
   Lemma inv_eff s s' : inv s -> eff s s' -> inv s'.
   Proof.
     intros (I1 & I2 & I3 & I4 & I5) E.
-    destruct E as [evs R N L B|c R N L|c R N L|c q who t n Hin R N L]; unfold inv; rewrite R, L.
+    destruct E as [evs R N L B|c R N L|c R N L|c q who t n Hin R N L|c q R N L]; unfold inv; rewrite R, L.
     - repeat split; auto.
       + intros c q Hi. rewrite N. auto.
       + intros c q. rewrite count_app. destruct (benign_counts evs c q B) as [-> _]. rewrite Nat.add_0_r. auto.
@@ -531,6 +537,14 @@ Section Runs.
         * rewrite in_rel_del_other.
           -- specialize (I5 c' q'). lia.
           -- intros Heq. inversion Heq; subst. rewrite !Z.eqb_refl in E. discriminate.
+    - repeat split.
+      + apply NoDup_del_rel. exact I1.
+      + intros c' q' Hi. apply in_del_rel in Hi. rewrite N. apply I2. tauto.
+      + auto.
+      + intros c' q' Hc. rewrite N. auto.
+      + intros c' q'. specialize (I5 c' q').
+        destruct (in_rel (del_rel (rel s) c q) c' q') eqn:E; [|lia].
+        apply in_rel_In in E. apply in_del_rel in E. destruct E as [E _]. apply in_rel_In in E. rewrite E in I5. exact I5.
   Qed.
 
   Lemma inv_run ops : forall s, inv s -> inv (run isender ops s).
@@ -560,7 +574,7 @@ Section Runs.
   (* every memo call that left a trace ran as a derived sender *)
   Lemma eff_calls s s' a : eff s s' -> In (EvCall a) (ilog s') -> In (EvCall a) (ilog s) \/ exists c sd, a = isender c sd.
   Proof.
-    intros E Hin. destruct E as [evs R N L B|c R N L|c R N L|c q who t n I R N L]; rewrite L in Hin;
+    intros E Hin. destruct E as [evs R N L B|c R N L|c R N L|c q who t n I R N L|c q R N L]; rewrite L in Hin;
       try (apply in_app_or in Hin; destruct Hin as [Hin|Hin]); auto.
     - destruct (B _ Hin) as [(r&t&n&E)|(c0&sd&E)]; [discriminate|]. inversion E. eauto.
     - destruct Hin as [E|[]]; discriminate.
@@ -587,24 +601,33 @@ Section Runs.
     apply andb_true_iff in H. destruct H as [H1 H2]. apply Z.eqb_eq in H1, H2. auto.
   Qed.
 
-  (* failure acknowledgement and timeout, delivered by the core: unless the delivery itself fails (and changes
-     nothing), the record of (channel, sequence) is gone afterwards *)
-  Lemma failure_or_timeout_removes c q s :
+  (* success acknowledgement, failure acknowledgement and timeout, delivered by the core: unless the delivery itself
+     fails (and changes nothing), the record of (channel, sequence) is gone afterwards *)
+  Lemma delivery_removes_record c q s :
+    let s0 := core_deliver (fun pk => on_ack pk true) c q s in
     let s1 := core_deliver (fun pk => on_ack pk false) c q s in
     let s2 := core_deliver on_timeout c q s in
-    (s1 = s \/ in_rel (rel s1) c q = false) /\ (s2 = s \/ in_rel (rel s2) c q = false).
+    (s0 = s \/ in_rel (rel s0) c q = false) /\ (s1 = s \/ in_rel (rel s1) c q = false) /\ (s2 = s \/ in_rel (rel s2) c q = false).
   Proof.
-    cbn zeta. unfold core_deliver. destruct (find_pk (commits s) c q) as [pk|] eqn:F; [|split; left; reflexivity].
+    cbn zeta. unfold core_deliver. destruct (find_pk (commits s) c q) as [pk|] eqn:F; [|repeat split; left; reflexivity].
     destruct (find_pk_spec _ _ _ _ F) as [<- <-].
-    unfold tx, branch, commit, discard, on_ack, on_timeout.
-    destruct (refund pk (with_commits s _)) as [x|x] eqn:E; cbn [fst]; [|split; left; reflexivity].
-    split; right; eapply refund_removes; eauto.
+    unfold tx, branch, commit, discard, on_ack, on_timeout. split; [|].
+    - right. cbn [fst rel with_rel with_commits]. apply in_rel_del.
+    - destruct (refund pk (with_commits s _)) as [x|x] eqn:E; cbn [fst]; [|split; left; reflexivity].
+      split; right; eapply refund_removes; eauto.
   Qed.
 
-  (* success acknowledgement: the relation set is left exactly as it was *)
-  Lemma success_keeps_relation c q s : rel (core_deliver (fun pk => on_ack pk true) c q s) = rel s.
+  (* a delivered success acknowledgement really is processed: the commitment is gone too *)
+  Lemma success_ack_processed c q s pk :
+    find_pk (commits s) c q = Some pk ->
+    let s0 := core_deliver (fun pk => on_ack pk true) c q s in
+    in_rel (rel s0) c q = false /\ find_pk (commits s0) c q = None /\ ibal s0 = ibal s /\ ilog s0 = ilog s.
   Proof.
-    unfold core_deliver. destruct (find_pk _ _ _); [|reflexivity]. reflexivity.
+    intros F. cbn zeta. unfold core_deliver. rewrite F. destruct (find_pk_spec _ _ _ _ F) as [<- <-].
+    unfold tx, branch, commit, on_ack. cbn [fst rel with_rel with_commits commits ibal ilog].
+    split; [apply in_rel_del|]. split; [|split; reflexivity].
+    unfold find_pk, del_pk. destruct (find _ (filter _ _)) eqn:E; [|reflexivity].
+    apply find_some in E. destruct E as [Hin Hp]. apply filter_In in Hin. destruct Hin as [_ Hn]. rewrite Hp in Hn. discriminate.
   Qed.
 End Runs.
 
@@ -621,12 +644,20 @@ Definition ex_state : ist :=
   {| ibal := ex_bal; rel := []; nextseq := fun _ => 1; commits := []; sent := []; pair_on := fun _ => true;
      has_acct := fun a => a =? 1700; ilog := [] |}.
 
-Lemma record_kept_on_success_witness :
-  let s := run ex_isender [SendFromEvm 0 0 (DAlias 0) 30; Ack 0 1 true] ex_state in
-  in_rel (rel s) 0 1 = true /\ find_pk (commits s) 0 1 = None /\ ibal s (0, AErc, 0) = 470.
-Proof. vm_compute. repeat split. Qed.
+(* regression, labelled: the success path BEFORE the fix (finding C19-1) left the record in place *)
+Lemma prefix_record_kept_on_success :
+  exists pk s s', in_rel (rel s) (p_chan pk) (p_seq pk) = true /\ on_ack_prefix pk true s = Ok s' /\
+                  in_rel (rel s') (p_chan pk) (p_seq pk) = true.
+Proof.
+  exists {| p_chan := 0; p_seq := 1; p_sender := 0; p_denom := DAlias 0; p_amt := 30 |},
+         (with_rel ex_state [(0, 1)]), (with_rel ex_state [(0, 1)]). vm_compute. repeat split.
+Qed.
 
 Lemma c19_nonvacuous :
+  (* success acknowledgement of an EVM-started transfer: nothing refunded, record and commitment gone; a replayed failure
+     acknowledgement afterwards refunds coins (the core's job to stop) but never ERC-20 *)
+  (let s := run ex_isender [SendFromEvm 0 0 (DAlias 0) 30; Ack 0 1 true; AckRaw 0 1 false] ex_state in
+   ibal s (0, AErc, 0) = 470 /\ rel s = [] /\ commits s = [] /\ count (is_reconv 0 1) (ilog s) = 0%nat /\ ibal s (0, ACoin, 0) = 30) /\
   (* timeout of an EVM-started transfer: refunded as ERC-20, record gone; the replay refunds coins (core's job to stop) but never ERC-20 again *)
   (let s := run ex_isender [SendFromEvm 0 0 (DAlias 0) 30; Timeout 0 1; TimeoutRaw 0 1; AckRaw 0 1 false] ex_state in
    ibal s (0, AErc, 0) = 500 /\ rel s = [] /\ count (is_reconv 0 1) (ilog s) = 1%nat /\ ibal s (0, ACoin, 0) = 60) /\
@@ -665,13 +696,3 @@ Lemma refund_once_fresh isender s0 ops c q :
   (count (is_reconv c q) (ilog s) <= 1)%nat /\
   ((0 < count (is_reconv c q) (ilog s))%nat -> count (is_sendevm c q) (ilog s) = 1%nat).
 Proof. intros R L. apply refund_once. apply inv_fresh; assumption. Qed.
-
-Lemma record_kept_on_success_refuted :
-  exists isender s0 ops c q,
-    rel s0 = [] /\ ilog s0 = [] /\
-    count (is_sendevm c q) (ilog (run isender ops s0)) = 1%nat /\      (* an EVM-started transfer … *)
-    find_pk (commits (run isender ops s0)) c q = None /\                (* … whose success acknowledgement has been processed … *)
-    in_rel (rel (run isender ops s0)) c q = true.                       (* … still has its tracking record *)
-Proof.
-  exists ex_isender, ex_state, [SendFromEvm 0 0 (DAlias 0) 30; Ack 0 1 true], 0, 1. vm_compute. repeat split.
-Qed.
